@@ -222,6 +222,9 @@ def generate(tier):
             ns = [{"A": a, "B": b} for a in (1, 2, 3) for b in (1, 2, 3)]
             if opt in ("none", "bystander"):
                 ns += [{"B": b} for b in (1, 2, 3)]  # unlabelled substrate, labelled product: every position is external
+            if opt == "none":
+                # a compound DECLARED with zero label positions: it stays one pool under its own name
+                ns += [{"A": 0, "B": b} for b in (1, 2)] + [{"A": a, "B": 0} for a in (1, 2)]
         elif net == "merge":
             ns = [{"A": a, "B": b, "C": a + b} for a in counts for b in counts if a + b <= 4]
             ns += [{"A": 1, "B": 1, "C": 3}, {"A": 2, "B": 1, "C": 2}]
@@ -260,7 +263,7 @@ def check(case):
     txt = f"{case}"
     base = base_model(case)
     maps = {**identity_maps(case), "v1": case["map"]}
-    first = next(iter(n))
+    first = next(c_ for c_ in n if n[c_])  # initial labels go to a compound that has positions
     init = None
     if case["init"] == "first":
         init = {first: 0}
@@ -308,7 +311,14 @@ def check(case):
     # (2) totals and placement
     ic = lm.get_initial_conditions()
     bic = base.get_initial_conditions()
+    unexpected = sorted(set(ic) - {f"{cpd}__{''.join(p_)}" if k else cpd for cpd, k in n.items() for p_ in it.product("01", repeat=k)} - set(bic))
+    if unexpected:
+        return outcome(False, "structure", symptom="unexpected-variable", nontrivial=nt, detail=f"the labelled model has variables that are no isotopomer of anything: {unexpected} | {txt}")
     for cpd, k in n.items():
+        if k == 0:
+            if not _close(ic.get(cpd, -1.0), bic[cpd]):
+                return outcome(False, "totals", symptom="initial-total-not-preserved", nontrivial=nt, detail=f"{cpd} (declared with 0 positions): {ic.get(cpd)} expected {bic[cpd]} | {txt}")
+            continue
         isos = {name: v for name, v in ic.items() if name.startswith(cpd + "__")}
         if len(isos) != 2**k:
             return outcome(False, "structure", symptom="wrong-isotopomer-count", nontrivial=nt, detail=f"{cpd}: {len(isos)} isotopomers | {txt}")
@@ -322,9 +332,9 @@ def check(case):
             return outcome(False, "totals", symptom="initial-label-misplaced", nontrivial=nt, detail=f"{cpd}: expected all {bic[cpd]} on {cpd}__{want}, got {isos} | {txt}")
     # (3) collapse identity
     var_l = lm.get_variable_names()
-    labelled = {cpd: [f"{cpd}__{''.join(p)}" for p in it.product("01", repeat=k)] for cpd, k in n.items()}
-    sub_cpds = sorted({s for s in subs if s in n})
-    other = [cpd for cpd in n if cpd not in sub_cpds]
+    labelled = {cpd: [f"{cpd}__{''.join(p)}" for p in it.product("01", repeat=k)] for cpd, k in n.items() if k}
+    sub_cpds = sorted({s for s in subs if n.get(s)})
+    other = [cpd for cpd in n if cpd not in sub_cpds and n[cpd]]
 
     def dist(cpd, mode, vertex=None):
         names = labelled[cpd]
@@ -345,7 +355,7 @@ def check(case):
         states.append(st)
     for mode in ("uniform", "asym"):
         st = {}
-        for cpd in n:
+        for cpd in labelled:
             st.update(dist(cpd, mode))
         states.append(st)
     for st in states:
